@@ -162,18 +162,21 @@ Bucket_grow(Bucket *self, int newsize, int noval)
         VERIF_PROBE(10);
         UNLESS (keys = BTree_Realloc(self->keys, sizeof(KEY_TYPE) * newsize))
             return -1;
+        /* The old block is gone (or is this one):  self->keys must follow
+        * at once, whatever happens next.
+        */
+        self->keys = keys;
 
         UNLESS (noval)
         {
             values = BTree_Realloc(self->values, sizeof(VALUE_TYPE) * newsize);
             if (values == NULL)
-            {
-                free(keys);
+                /* self->keys merely has room to spare now; self->size still
+                * describes what both vectors can hold.
+                */
                 return -1;
-            }
             self->values = values;
         }
-        self->keys = keys;
     }
     else
     {
